@@ -13,7 +13,9 @@
 (* one of (user, realm, password, nonce, method, URL, algorithm).  Only a  *)
 (* perturbation of something the authorization depends on must be refused. *)
 (* "setup_base": the documented compatibility rule - a SETUP request for a *)
-(* track URL may carry an authorization computed for the stream's base URL.*)
+(* track URL may carry an authorization computed for the stream's base URL *)
+(* ("setup_other": a SETUP whose authorization was computed for any other  *)
+(* URL - another stream, a shorter prefix of the base URL - is refused).   *)
 (*                                                                         *)
 (* Wire(creds, status, kept): a request on a real connection carrying no / *)
 (* wrong / right credentials while the application reports an              *)
@@ -29,12 +31,12 @@ AResetAuth == nverify' = 0 /\ nwire' = 0
 
 Schemes == {"basic", "md5", "sha256"}
 Perts == {"none", "user", "pass", "realm", "nonce", "method", "alg", "url",
-          "setup_base", "base_nonsetup"}
+          "setup_base", "base_nonsetup", "setup_other"}
 
 \* perturbations that change something the authorization was computed from
 Affects(sent, pert) ==
   IF sent = "basic" THEN pert \in {"user", "pass"}
-  ELSE pert \in {"user", "pass", "realm", "nonce", "method", "alg", "url", "base_nonsetup"}
+  ELSE pert \in {"user", "pass", "realm", "nonce", "method", "alg", "url", "base_nonsetup", "setup_other"}
 
 MustAccept(sent, pert, enabledHas) == enabledHas /\ ~Affects(sent, pert)
 
